@@ -1579,6 +1579,11 @@ def _tf_random_uniform(ip, shape=None, minval=0, maxval=None, **k):
   return SNum(u, "tensor", z3.RealVal(0) if ip_tracks_grad(ip) else None)
 
 
+@model("tf.nest.is_nested", "tf.python.util.nest.is_nested", "tf.nest.is_sequence")
+def _is_nested(ip, v):
+  return isinstance(v, (list, tuple, dict))
+
+
 @model("tf.name_scope", "tf.init_scope", "tf.control_dependencies")
 def _noop_ctx(ip, *a, **k):
   return None
